@@ -8,7 +8,7 @@ CONSTANT UserMenu <- UMa
 CONSTANT RoleMenu <- RM0
 CONSTANT DocMenu <- DMa1
 CONSTANT Lims <- L0
-CONSTANT MaxSteps = 5
+CONSTANT MaxSteps = 4
 CONSTANT PageGap = FALSE
 SPECIFICATION Spec
 INVARIANT BehaviourExport
